@@ -33,7 +33,7 @@ MANIFEST = {
 EXPLANATION = MANIFEST["level_text"]
 TRUSTED = [
     "pyvc VC generator, slicer and string encoding",
-    "z3 5.1.0 / cvc5 1.0.3",
+    "z3 5.1.0 / cvc5 1.4.0",
     "CPython: json.dumps serialises a str->str dict faithfully; json.loads returns a JSON value or raises ValueError (JSONDecodeError, UnicodeDecodeError, int digit limit) or RecursionError (nesting depth); dict.fromkeys = first-occurrence de-duplication in order; html.escape total",
     "falcon: HTTPUnauthorized -> 401, HTTPServiceUnavailable(retry_after=n) -> 503 with Retry-After: n; the error serializer registered with set_error_serializer renders every HTTPError; resp.set_header sets exactly that header",
 ]
